@@ -2,12 +2,9 @@
   Line-protocol driver: one S-expression `(op arg ...)` per input line, one answer per line:
   `ok <sexp>` or `err <message>`.  Core only.
 -/
-import Rdm.Ops.Ranking
+import Rdm.Ops.All
 namespace Rdm
 open Rdm.Ops
-
-def allOps : List (String × (List SExp → R SExp)) :=
-  rankingOps
 
 def runLine (line : String) : String :=
   match SExp.parse line with
